@@ -16,6 +16,10 @@ elab "#audit_module " m:ident : command => do
     if env.getModuleIdxFor? name != some idx then continue
     if name.isInternal then continue
     if !(modName.isPrefixOf name) then continue
+    -- auto-generated equation / injectivity / sizeOf lemmas are not property theorems
+    let last := name.getString!
+    if last.startsWith "eq_" || last == "injEq" || last == "inj" || last == "sizeOf_spec"
+        || last == "congr_simp" || last.startsWith "match_" || last == "eq_def" then continue
     match info with
     | .thmInfo _ =>
       let axs ← Lean.collectAxioms name
